@@ -906,15 +906,16 @@ async fn script(sh: Arc<Shared>, case: Case, fire: Fire, log: Log) -> bool {
         let orx = (if actor_is_a { &pb } else { &pa }).subscribe_peer_state();
         let setup_failed = Arc::new(AtomicBool::new(false));
         let sf = setup_failed.clone();
+        let fire2 = fire.clone();
         let ok = wait_until(&fire, &log, "both peer states Connected", || {
-            if is_terminal(*srx.borrow()) || is_terminal(*orx.borrow()) {
+            if !fire2.is() && (is_terminal(*srx.borrow()) || is_terminal(*orx.borrow())) {
                 sf.store(true, Ordering::SeqCst);
                 return true;
             }
             *srx.borrow() == PeerConnectionState::Connected && *orx.borrow() == PeerConnectionState::Connected
         })
         .await;
-        if setup_failed.load(Ordering::SeqCst) {
+        if setup_failed.load(Ordering::SeqCst) && !fire.is() {
             log.fail("run", "unreached", format!("set-up failed before any event: A {:?}/{:?}  B {:?}/{:?}", *pa.subscribe_peer_state().borrow(), pa.disconnect_reason(), *pb.subscribe_peer_state().borrow(), pb.disconnect_reason()));
             return false;
         }
